@@ -351,6 +351,10 @@ func preState(dir string, kind int, size int) map[string][]byte {
 		put("in", crashMsg("OLDIN0000002", 30, "LA2BBB"), true)
 		put("out", crashMsg("OLDOUT000002", 30, "LA1AAA"), false)
 		h.SetSent("OLDOUT000002", false)
+		// a message received earlier that the application has filed away (moved to the archive folder, as the mail clients
+		// built on the library do): the same identifier arrives again in the interrupted operation
+		h.ProcessInbound(crashMsg("NEWIN0000001", 30, "LA2BBB"))
+		os.Rename(filepath.Join(dir, mailbox.DIR_INBOX, "NEWIN0000001"+mailbox.Ext), filepath.Join(dir, mailbox.DIR_ARCHIVE, "NEWIN0000001"+mailbox.Ext))
 	}
 	filepath.Walk(dir, func(p string, info os.FileInfo, err error) error {
 		if err == nil && !info.IsDir() {
